@@ -48,6 +48,8 @@ struct StreamPlan {
     /// the reading application stops the stream once it has read this much (the writer, quite
     /// possibly blocked on flow control at that moment, must be told)
     stop_after: Option<usize>,
+    /// the writer resets the stream (with this code) once it has written this much
+    reset_after: Option<(usize, u32)>,
 }
 
 #[derive(Clone, Debug)]
@@ -86,6 +88,10 @@ struct Results {
     lost: std::collections::BTreeSet<u32>,
     /// (conn, stream) -> the reader is to stop the stream after this many bytes
     stop_plan: BTreeMap<(u32, u64), usize>,
+    /// (conn, stream) -> code the writer resets the stream with
+    reset_plan: BTreeMap<(u32, u64), u32>,
+    /// (conn, stream) -> the reader saw the reset
+    reset_seen: std::collections::BTreeSet<(u32, u64)>,
 }
 
 type Res = Arc<Mutex<Results>>;
@@ -137,7 +143,48 @@ async fn read_all(sim: &Sim, res: &Res, lbl: &Lbl, ci: u32, recv: &mut RecvStrea
         // (never twice in a row, so that the task cannot spin)
         let cancel = if just_cancelled { 0 } else { draw(sim, "c18.cancel_r", 4) };
         just_cancelled = false;
-        let use_chunk = draw(sim, "c18.read_kind", 2) == 0;
+        let kind = draw(sim, "c18.read_kind", 3);
+        if kind == 2 {
+            // read_chunks: several ordered chunks at once (cancel-safe as well)
+            let mut bufs: [bytes::Bytes; 3] = Default::default();
+            let r = if cancel == 0 { Some(recv.read_chunks(&mut bufs).await) } else { poll_n(recv.read_chunks(&mut bufs), cancel).await };
+            match r {
+                None => {
+                    res.lock().unwrap().cancels += 1;
+                    just_cancelled = true;
+                    YieldNow(false).await;
+                    continue;
+                }
+                Some(Ok(Some(n))) => {
+                    sim.with(|s| s.probes.hit("read_chunks_returned"));
+                    for b in &bufs[..n] {
+                        if let Some(i) = pat_check(key, pos as u64, b) {
+                            sim.violate("async-data-mismatch", format!("{}: byte at offset {} (read_chunks) differs from what was written", what, pos + i));
+                            return None;
+                        }
+                        pos += b.len();
+                    }
+                }
+                Some(Ok(None)) => return Some(pos),
+                Some(Err(quinn::ReadError::Reset(code))) if res.lock().unwrap().reset_plan.contains_key(&(ci, VarInt::from(recv.id()).into_inner())) => {
+                    let sid = VarInt::from(recv.id()).into_inner();
+                    let want = res.lock().unwrap().reset_plan[&(ci, sid)];
+                    if code != VarInt::from_u32(want) {
+                        sim.violate("async-reset-code-mismatch", format!("{}: read_chunks reported Reset({}) but the writer reset the stream with {}", what, code, want));
+                    }
+                    res.lock().unwrap().reset_seen.insert((ci, sid));
+                    sim.with(|s| s.probes.hit("reader_saw_reset"));
+                    return None;
+                }
+                Some(Err(e)) => {
+                    sim.log(|| format!("{} read error {}", what, e));
+                    op_failed(res, ci, what, &e);
+                    return None;
+                }
+            }
+            continue;
+        }
+        let use_chunk = kind == 0;
         if use_chunk {
             let r = if cancel == 0 { Some(recv.read_chunk(*[usize::MAX, 1, 100, 1200].get(draw(sim, "c18.maxlen", 4) as usize).unwrap(), true).await) } else { poll_n(recv.read_chunk(usize::MAX, true), cancel).await };
             match r {
@@ -159,6 +206,16 @@ async fn read_all(sim: &Sim, res: &Res, lbl: &Lbl, ci: u32, recv: &mut RecvStrea
                     pos += c.bytes.len();
                 }
                 Some(Ok(None)) => return Some(pos),
+                Some(Err(quinn::ReadError::Reset(code))) if res.lock().unwrap().reset_plan.contains_key(&(ci, VarInt::from(recv.id()).into_inner())) => {
+                    let sid = VarInt::from(recv.id()).into_inner();
+                    let want = res.lock().unwrap().reset_plan[&(ci, sid)];
+                    if code != VarInt::from_u32(want) {
+                        sim.violate("async-reset-code-mismatch", format!("{}: read reported Reset({}) but the writer reset the stream with {}", what, code, want));
+                    }
+                    res.lock().unwrap().reset_seen.insert((ci, sid));
+                    sim.with(|s| s.probes.hit("reader_saw_reset"));
+                    return None;
+                }
                 Some(Err(e)) => {
                     sim.log(|| format!("{} read error {}", what, e));
                     op_failed(res, ci, what, &e);
@@ -183,6 +240,16 @@ async fn read_all(sim: &Sim, res: &Res, lbl: &Lbl, ci: u32, recv: &mut RecvStrea
                     pos += n;
                 }
                 Some(Ok(None)) => return Some(pos),
+                Some(Err(quinn::ReadError::Reset(code))) if res.lock().unwrap().reset_plan.contains_key(&(ci, VarInt::from(recv.id()).into_inner())) => {
+                    let sid = VarInt::from(recv.id()).into_inner();
+                    let want = res.lock().unwrap().reset_plan[&(ci, sid)];
+                    if code != VarInt::from_u32(want) {
+                        sim.violate("async-reset-code-mismatch", format!("{}: read reported Reset({}) but the writer reset the stream with {}", what, code, want));
+                    }
+                    res.lock().unwrap().reset_seen.insert((ci, sid));
+                    sim.with(|s| s.probes.hit("reader_saw_reset"));
+                    return None;
+                }
                 Some(Err(e)) => {
                     sim.log(|| format!("{} read error {}", what, e));
                     op_failed(res, ci, what, &e);
@@ -201,6 +268,40 @@ async fn write_all(sim: &Sim, res: &Res, lbl: &Lbl, ci: u32, send: &mut SendStre
         let mut buf = vec![0u8; n];
         pat_fill(key, pos as u64, &mut buf);
         lbl.set(&format!("{} write at {}", what, pos));
+        if draw(sim, "c18.write_kind", 3) == 2 {
+            // write_chunks: up to three chunks, partially accepted (cancel-safe as well)
+            let third = (n / 3).max(1);
+            let mut bufs: Vec<bytes::Bytes> = buf.chunks(third).map(bytes::Bytes::copy_from_slice).collect();
+            let r = if cancel_w == 0 || just_cancelled { Some(send.write_chunks(&mut bufs).await) } else { poll_n(send.write_chunks(&mut bufs), 1 + draw(sim, "c18.cancel_wc", cancel_w)).await };
+            just_cancelled = false;
+            match r {
+                None => {
+                    res.lock().unwrap().cancels += 1;
+                    just_cancelled = true;
+                    YieldNow(false).await;
+                }
+                Some(Ok(wr)) => {
+                    sim.with(|s| s.probes.hit("write_chunks_returned"));
+                    // what is left in `bufs` must be exactly the unwritten tail
+                    let left: usize = bufs.iter().map(|b| b.len()).sum();
+                    if wr.bytes + left != n {
+                        sim.violate("async-write-chunks-accounting", format!("{}: write_chunks reported {} bytes written of {} but left {} bytes in the buffers", what, wr.bytes, n, left));
+                        break;
+                    }
+                    pos += wr.bytes;
+                }
+                Some(Err(quinn::WriteError::Stopped(_))) if res.lock().unwrap().stop_plan.contains_key(&(ci, VarInt::from(send.id()).into_inner())) => {
+                    sim.with(|s| s.probes.hit("writer_told_of_stop"));
+                    break;
+                }
+                Some(Err(e)) => {
+                    sim.log(|| format!("{} write error {}", what, e));
+                    op_failed(res, ci, what, &e);
+                    break;
+                }
+            }
+            continue;
+        }
         let r = if cancel_w == 0 || just_cancelled { Some(send.write(&buf).await) } else { poll_n(send.write(&buf), 1 + draw(sim, "c18.cancel_w", cancel_w)).await };
         just_cancelled = false;
         match r {
@@ -246,10 +347,17 @@ async fn client_stream(sim: Sim, res: Res, lbl: Lbl, conn: Connection, ci: u32, 
         if let Some(k) = p.stop_after {
             res.lock().unwrap().stop_plan.insert((ci, sid), k);
         }
-        let n = write_all(&sim, &res, &lbl, ci, &mut send, skey(ci, sid, false), p.size, p.chunk, p.cancel_w, &what).await;
-        let complete = n == p.size && p.stop_after.is_none();
+        if let Some((_, code)) = p.reset_after {
+            res.lock().unwrap().reset_plan.insert((ci, sid), code);
+        }
+        let limit = p.reset_after.map_or(p.size, |(k, _)| k.min(p.size));
+        let n = write_all(&sim, &res, &lbl, ci, &mut send, skey(ci, sid, false), limit, p.chunk, p.cancel_w, &what).await;
+        let complete = n == p.size && p.stop_after.is_none() && p.reset_after.is_none();
         res.lock().unwrap().written.insert((ci, sid), (n, complete));
-        if p.drop_unfinished {
+        if let Some((_, code)) = p.reset_after {
+            let _ = send.reset(VarInt::from_u32(code));
+            sim.with(|s| s.probes.hit("writer_reset_stream"));
+        } else if p.drop_unfinished {
             drop(send);
         } else {
             let _ = send.finish();
@@ -268,9 +376,16 @@ async fn client_stream(sim: Sim, res: Res, lbl: Lbl, conn: Connection, ci: u32, 
         if let Some(k) = p.stop_after {
             res.lock().unwrap().stop_plan.insert((ci, sid), k);
         }
-        let n = write_all(&sim, &res, &lbl, ci, &mut send, skey(ci, sid, false), p.size, p.chunk, p.cancel_w, &what).await;
-        res.lock().unwrap().written.insert((ci, sid), (n, n == p.size && p.stop_after.is_none()));
-        if p.drop_unfinished {
+        if let Some((_, code)) = p.reset_after {
+            res.lock().unwrap().reset_plan.insert((ci, sid), code);
+        }
+        let limit = p.reset_after.map_or(p.size, |(k, _)| k.min(p.size));
+        let n = write_all(&sim, &res, &lbl, ci, &mut send, skey(ci, sid, false), limit, p.chunk, p.cancel_w, &what).await;
+        res.lock().unwrap().written.insert((ci, sid), (n, n == p.size && p.stop_after.is_none() && p.reset_after.is_none()));
+        if let Some((_, code)) = p.reset_after {
+            let _ = send.reset(VarInt::from_u32(code));
+            sim.with(|s| s.probes.hit("writer_reset_stream"));
+        } else if p.drop_unfinished {
             drop(send);
         } else {
             let _ = send.finish();
@@ -584,11 +699,15 @@ fn draw_plan(ch: &mut Chooser, big: bool) -> ConnPlan {
             drop_unfinished: ch.chance("c18.drop_unfinished", 1, 4),
             resp: ch.range_log("c18.resp", 0, 20_000) as usize,
             stop_after: if ch.chance("c18.stop_after", 1, 5) { Some(ch.range_log("c18.stop_after_n", 0, 5000) as usize) } else { None },
+            reset_after: if ch.chance("c18.reset_after", 1, 6) { Some((ch.range_log("c18.reset_after_n", 0, 5000) as usize, 100 + ch.choose("c18.reset_code", 50))) } else { None },
         });
     }
     // (single-byte chunks on big streams would only burn steps)
     for s in streams.iter_mut() {
         s.chunk = s.chunk.max(s.size / 400 + 1);
+        if s.stop_after.is_some() {
+            s.reset_after = None;
+        }
     }
     ConnPlan { streams, dgrams: if ch.chance("c18.dgrams", 1, 2) { ch.range("c18.n_dgrams", 1, 20) as u32 } else { 0 }, explicit_close: ch.chance("c18.explicit_close", 1, 2), parked: ch.chance("c18.parked", 1, 2) }
 }
